@@ -43,17 +43,45 @@ def sh(cmd, cwd=None, timeout=None, env=None, check=True):
     return p
 
 
-def build():
-    """(Re)build the harness from /repo's current working tree with -tags verif."""
+REPO = os.environ.get("VERIF_REPO", "/repo")
+
+
+def _modfile_args():
+    """Development aid only (seeded-change experiments in a scratch worktree): VERIF_REPO=<dir> builds the
+    harness against <dir> instead of /repo through an alternate go.mod.  Registered checks never set it."""
+    if REPO == "/repo":
+        shutil.copy("/repo/go.sum", os.path.join(HARNESS, "go.sum"))
+        return []
+    tag = re.sub(r"[^A-Za-z0-9]", "_", REPO)
+    alt = os.path.join(WORK, "alt%s.mod" % tag)
+    with open(os.path.join(HARNESS, "go.mod")) as f:
+        mod = f.read().replace("=> /repo", "=> " + REPO)
+    with open(alt, "w") as f:
+        f.write(mod)
+    shutil.copy(os.path.join(REPO, "go.sum"), alt[:-4] + ".sum")
+    return ["-modfile=" + alt]
+
+
+def bin_path(cmd="vh"):
+    if REPO == "/repo":
+        return os.path.join(WORK, cmd)
+    return os.path.join(WORK, cmd + re.sub(r"[^A-Za-z0-9]", "_", REPO))
+
+
+def build(cmd="vh", race=False):
+    """(Re)build harness command ./cmd/<cmd> from the repository's current working tree with -tags verif."""
     os.makedirs(WORK, exist_ok=True)
     with open(os.path.join(WORK, "build.lock"), "w") as lk:
         fcntl.flock(lk, fcntl.LOCK_EX)
-        shutil.copy("/repo/go.sum", os.path.join(HARNESS, "go.sum"))
+        extra = _modfile_args()
         t0 = time.time()
-        p = sh(["go", "build", "-tags", "verif", "-o", VH, "./cmd/vh"], cwd=HARNESS, env=GOENV, timeout=1500, check=False)
+        out = bin_path(cmd) + ("-race" if race else "")
+        args = ["go", "build"] + extra + ["-tags", "verif"] + (["-race"] if race else []) + ["-o", out, "./cmd/" + cmd]
+        p = sh(args, cwd=HARNESS, env=GOENV, timeout=2400, check=False)
         if p.returncode != 0:
-            raise Infra("harness does not build against /repo:\n" + p.stdout[-6000:])
-        log("harness built in %.1fs" % (time.time() - t0))
+            raise Infra("harness does not build against %s:\n%s" % (REPO, p.stdout[-6000:]))
+        log("harness %s built against %s in %.1fs" % (cmd, REPO, time.time() - t0))
+    return out
 
 
 class Work:
@@ -73,8 +101,8 @@ class Work:
         shutil.rmtree(self.dir, ignore_errors=True)
 
 
-def vh(args, timeout=3000):
-    p = sh([VH] + args, timeout=timeout, env=GOENV, check=False)
+def vh(args, timeout=3000, cmd="vh"):
+    p = sh([bin_path(cmd)] + args, timeout=timeout, env=GOENV, check=False)
     if p.returncode != 0:
         raise Infra("driver failed (%d): vh %s\n%s" % (p.returncode, " ".join(args), p.stdout[-4000:]))
     return p.stdout
@@ -212,8 +240,9 @@ class Verdict:
         ev = {"property_id": self.pid, "tier": self.tier, "seed": self.seed, "level": level, "coverage": self.cov,
               "assumptions": self.assumptions, "wall_s": round(time.time() - self.t0, 1), "violations": new,
               "known_findings_reproduced": sorted(seen)}
-        os.makedirs(os.path.join(ROOT, "evidence"), exist_ok=True)
-        with open(os.path.join(ROOT, "evidence", self.pid + ".json"), "w") as f:
+        evdir = os.path.join(ROOT, "evidence") if REPO == "/repo" else os.path.join(WORK, "evidence-alt")
+        os.makedirs(evdir, exist_ok=True)
+        with open(os.path.join(evdir, self.pid + ".json"), "w") as f:
             json.dump(ev, f, indent=1)
         log("%s %s: states=%d transitions=%d impl_traces=%d evaluations=%d nontrivial=%d wall=%.0fs violations=%d" % (
             self.pid, self.tier, self.cov["states"], self.cov["transitions"], self.cov["traces_validated_against_impl"],
